@@ -101,11 +101,15 @@ def enumerate_injections(ir, uni, kinds=None):
             out.append(_ins("unknown-section-type", n % 3, url, idx, [v]))
         kt = G.keytype_of(ir, ctx)
         if "unknown-key" in kinds and not has_wild(ir, ctx):
-            out.append(_ins("unknown-key", 0, url, idx, ["zzunknown v"]))
+            # (with a value, or the key alone on its line: the empty value)
+            out.append(_ins("unknown-key", 0, url, idx,
+                            [["zzunknown v", "zzunknown", "zzunknown v w"][
+                                n % 3]]))
         if "bad-key" in kinds and kt in ("basic-key", "identifier",
                                          "zcsim.simdt.keytype_0"):
             bad = "9bad"
-            out.append(_ins("bad-key", 0, url, idx, [bad + " v"],
+            out.append(_ins("bad-key", 0, url, idx,
+                            [[bad + " v", bad][n % 2]],
                             family="conversion", value=bad))
         sl = slots(ir, ctx)
         if "unknown-key" in kinds:
@@ -173,7 +177,8 @@ def enumerate_injections(ir, uni, kinds=None):
             keytext = ln["t"].split(None, 1)[0]
             if "repeated-key" in kinds and not ln["multi"]:
                 out.append(_ins("repeated-key", 1 if ln["wild"] else 0, url,
-                                idx + 1, [ln["t"].strip()]))
+                                idx + 1, [keytext if n % 4 == 3
+                                          else ln["t"].strip()]))
                 # the repetition far away: later in the same section
                 # instance, preferably in another resource (the first
                 # occurrence and the repeat on opposite sides of an include
